@@ -497,7 +497,8 @@ func (p *program) isGenerated(f *ast.File) bool {
 		// The standard marker may follow a license header or a build constraint.
 		return true
 	}
-	return len(f.Comments) != 0 &&
+	// Only a comment that precedes the package clause can mark a file as generated.
+	return len(f.Comments) != 0 && f.Comments[0].Pos() < f.Package &&
 		generatedFileCommentRE.MatchString(f.Comments[0].Text())
 }
 
